@@ -412,6 +412,67 @@ func ruleConfinement(c *Ctx) {
 			c.viol(name, what, pos, fmt.Sprintf("runs in context %s and touches %s: outside the connection worker this races with it and breaks the single-threaded reasoning of the subscription state machine. Reached: %s", cs, strings.Join(sortedKeys(flds), ","), ci.why[f]))
 		}
 	}
+	// the continuation summaries: a parameter declared to run on the connection worker is only invoked there
+	for _, r := range ctxRules {
+		if r.Ctx != ctxCONN {
+			continue
+		}
+		tf := p.lookupFunc(r.Fn)
+		if tf == nil {
+			continue
+		}
+		fn := p.SSA.FuncValue(tf)
+		if fn == nil || len(fn.Blocks) == 0 || r.Arg >= len(fn.Params) {
+			continue
+		}
+		prm := fn.Params[r.Arg]
+		// the parameter's cell and every free variable bound to it
+		holders := map[ssa.Value]bool{prm: true}
+		for changed := true; changed; {
+			changed = false
+			for _, g := range WithClosures(fn) {
+				for _, in := range instrsOf(g) {
+					switch x := in.(type) {
+					case *ssa.Store:
+						if holders[x.Val] && !holders[x.Addr] {
+							if _, ok := x.Addr.(*ssa.Alloc); ok {
+								holders[x.Addr] = true
+								changed = true
+							}
+						}
+					case *ssa.MakeClosure:
+						cf := x.Fn.(*ssa.Function)
+						for i, b := range x.Bindings {
+							if holders[b] && i < len(cf.FreeVars) && !holders[cf.FreeVars[i]] {
+								holders[cf.FreeVars[i]] = true
+								changed = true
+							}
+						}
+					}
+				}
+			}
+		}
+		for _, g := range WithClosures(fn) {
+			for _, call := range callsIn(g) {
+				v := call.Common().Value
+				if call.Common().IsInvoke() || call.Common().StaticCallee() != nil {
+					continue
+				}
+				isParam := holders[v]
+				if u, ok := v.(*ssa.UnOp); ok && holders[u.X] {
+					isParam = true
+				}
+				if !isParam {
+					continue
+				}
+				c.inst(1)
+				cs := ci.ctx[g]
+				_, isGo := call.(*ssa.Go)
+				c.check(cs != 0 && cs&^ctxCONN == 0 && !isGo, fnName(fn), "continuation "+prm.Name()+" is invoked on the connection worker only", p.InstrPos(call), "invoked in "+fnName(g)+" (context "+cs.String()+")",
+					"continuation "+prm.Name()+" is invoked in "+fnName(g)+" which runs in context "+cs.String()+": responses and subscription state would be handled off the connection worker (responses can overtake events, counters race)")
+			}
+		}
+	}
 	// one worker per connection
 	n := 0
 	for _, f := range p.Repo {
